@@ -18,11 +18,12 @@ Proof.
   apply orb_false_iff in E. tauto.
 Qed.
 
-Section WideFinal2.
+Section ClusterItems.
 Variable cs : list ctxspec.
-Variable ic : ctxspec.
-Let p := mkP cs (Some ic) false.
-Let i0 := init_ctx ic.
+(** any parser over [cs], any state [i0] of the initial context *)
+Variable p : parser.
+Hypothesis Pcs : p_ctxs p = cs.
+Variable i0 : rctx.
 
 Definition run_cluster (args : list rarg) (l : list occ) : list rarg := fold_left run_one l args.
 Definition given_cluster (given : list nat) (l : list occ) : list nat := fold_left one_given l given.
@@ -38,7 +39,7 @@ Theorem cluster_steps c given l done cur fl got :
 Proof.
   intros G Ck Iw I. unfold cluster_ok_w in Ck. apply andb_true_iff in Ck. destruct Ck as [Len Mk].
   apply Nat.leb_le in Len.
-  destruct (members_steps cs ic c l given done cur fl got G Mk Iw I) as [fl' [got' [S [I' Iw']]]].
+  destruct (members_steps cs p Pcs i0 c l given done cur fl got G Mk Iw I) as [fl' [got' [S [I' Iw']]]].
   exists fl', got'. split; [|split; [exact I' | exact Iw']].
   rewrite (members_tokens cs c l given Mk) in S.
   pose proof (members_letters cs c l given Mk) as Le.
@@ -100,7 +101,7 @@ Theorem cluster_vals c given l args os :
   vals_ok os args -> vals_ok (os ++ l) (run_cluster args l).
 Proof.
   intros G Ck Iw V. unfold cluster_ok_w in Ck. apply andb_true_iff in Ck. destruct Ck as [_ Mk].
-  now apply (members_vals cs ic c l given).
+  now apply (members_vals cs p Pcs i0 c l given).
 Qed.
 
 Lemma tails_clean c : forall l given,
@@ -138,6 +139,14 @@ Proof.
   destruct (clean_short_inv ch Cch) as [Hd _]. intros C. injection C as C _. subst ch. discriminate Hd.
 Qed.
 
+End ClusterItems.
+
+Section WideFinal2.
+Variable cs : list ctxspec.
+Variable ic : ctxspec.
+Let p := mkP cs (Some ic) false.
+Let i0 := init_ctx ic.
+
 (** ** items: single occurrences and clusters *)
 Definition item_ok_x (c : ctxspec) (given : list nat) (it : item) : bool :=
   match it with One o => occ_wide cs c given o | Cluster l => cluster_ok_w cs c given l end.
@@ -171,14 +180,14 @@ Proof.
   - intros c given args G Iw E. unfold end_ok_w in E. apply opt_nat_eqb_eq in E.
     now apply (no_missing_of_end c given args).
   - intros c given [o|l] done cur fl got G Os Iw I.
-    + exact (one_steps cs ic c given o done cur fl got G Os Iw I).
-    + exact (cluster_steps c given l done cur fl got G Os Iw I).
+    + exact (one_steps cs p eq_refl i0 c given o done cur fl got G Os Iw I).
+    + exact (cluster_steps cs p eq_refl i0 c given l done cur fl got G Os Iw I).
   - intros c given [o|l] args os G Os Iw V.
     + exact (one_vals cs c given o args os G Os Iw V).
-    + exact (cluster_vals c given l args os G Os Iw V).
+    + exact (cluster_vals cs p eq_refl i0 c given l args os G Os Iw V).
   - intros c given [o|l] G Os.
     + exact (one_clean cs c given o G Os).
-    + exact (cluster_clean c given l G Os).
+    + exact (cluster_clean cs c given l G Os).
 Qed.
 End WideFinal2.
 
